@@ -42,12 +42,16 @@ def main(tier, only=None):
     rep.cov['trusted_base'] = ['storage contract as read from disk_rowset.rs::start_rowid and rowset_iterator.rs::next_batch_inner: the range is applied positionally to the first scanned column of a row-set stored in key order, under DataValue ordering; a non-Int32 start key panics',
                                'relsmt/sem.py operator model', 'z3']
     rep.assumptions = ['K rows per table, all inserted by one INSERT (one row-set, one block)', 'integers within +-64; strings as ordered integers',
-                       'block selection by first keys, early termination across blocks, delete vectors and multi-row-set layouts are outside the claim']
+                       'early termination across batches, delete vectors and multi-row-set layouts are outside the claim; block selection by first keys (start_rowid) is decided from its MIR for row-sets of 4-5 rows']
     sel = lambda r: r.name.startswith('filter-scan') and (not only or only in r.name)
     rules_check.run(rep, rules, K, thorough, select=sel)
     has_where = lambda sql: bool(re.search(r'\bwhere\b', sql, re.I))
     query_layer.run(rep, 'C13', K, thorough, 600 if thorough else 120, only=only, include_repo=True, select_sql=has_where, use_ranges=True, only_cfg='disk',
                     extra_groups=family(thorough))
+    # storage side: the seek position of a range scan, from the MIR of DiskRowset::start_rowid (engine M)
+    from mirsmt import c13m
+    if not only or 'start_rowid' in only:
+        c13m.run(rep, thorough)
     return rep.finish()
 
 
